@@ -163,6 +163,24 @@ def trace_cases(res, rng, tier):
         runs.append(("amen_divide/d%d" % d, thunk))
     n = solve_loop_tie(res, "C13", rng, DV.amen_divide, "solution_now = tn.linalg.solve(B,rhs)", runs, "a", "b", True)
     res.extra["division_loop_state_evaluations"] = n
+    # the block after the local solve (reported residuals, rank rule, truncation + enrichment + QR + absorption): TTModel/AmenStep.lean, TT.C12d
+    from looptie import update_loop_tie
+    runs = []
+    for c in range(4 if tier == "quick" else 24):
+        d = [3, 2, 4, 3][c % 4]
+        N = [rng.randint(2, 3) for _ in range(d)]
+        seed = rng.randrange(1 << 30)
+        max_full = [10 ** 6, 0][c % 2]
+
+        def thunk(N=N, seed=seed, d=d, max_full=max_full, eps_t=[1e-8, 1e-2][(c // 2) % 2]):
+            tn.manual_seed(seed)
+            z = torchtt.randn(N, [1] + [2] * (d - 1) + [1])
+            y = (z * z + 1.0).round(1e-14)
+            x = torchtt.randn(N, [1] + [2] * (d - 1) + [1])
+            DV.amen_divide(y, x, nswp=4, eps=eps_t, max_full=max_full, kickrank=2, verbose=False)
+        runs.append(("amen_divide/d%d/maxfull%d" % (d, max_full), thunk))
+    pats = {"res": "if res_old/res_new < damp", "scan": "if res > max(real_tol*damp", "vt": "v = v.t()", "qr": "r_add = uk.shape", "set": "x_cores[k] = tn.reshape(u,"}
+    res.extra["division_update_tie"] = update_loop_tie(res, "C13", rng, DV.amen_divide, pats, runs, opname="a", embed=True, res_rule=True)
 
 
 def run(res, rng, tier, known):
